@@ -12,6 +12,8 @@ NOMINAL = {
             ('MC_Maint', ['DurableVisible', 'Recoverable'])],
     'C17': [('MC_Crash', ['Recoverable', 'ReadCorrect', 'WriteAcked', 'TypeOK']), ('MC_Maint', ['Recoverable', 'KeysUnique', 'Completed'])],
 }
+# liveness (thorough tier): under weak fairness of each actor every call returns (FairSpec, PROPERTY EveryCallReturns)
+LIVENESS = {'C04': [('MC_Conc_live', ['TypeOK']), ('MC_Conc_seek_live', ['TypeOK'])]}
 # flipping a switch must make TLC find the violation (the invariants are not vacuous)
 DEVIATIONS = {
     'C04': [('MC_Dev_NoFallback', 'ReadCorrect'), ('MC_Dev_UnlinkBeforeCommit', 'Recoverable'), ('MC_Dev_NoRetry', 'SeekReadCorrect')],
@@ -39,6 +41,8 @@ def _run(job):
 
 def check(report: common.Report, prop: str):
     jobs = [(cfg, invs) for cfg, invs in NOMINAL[prop]] + [(cfg, None) for cfg, _ in DEVIATIONS[prop]]
+    if report.tier == 'thorough':
+        jobs += LIVENESS.get(prop, [])
     results = common.pmap(_run, jobs, procs=4)
     expected_dev = dict(DEVIATIONS[prop])
     summary = {}
